@@ -18,7 +18,8 @@ LEVEL = 'exploration'
 TECHNIQUE = 'bounded exhaustive enumeration of mention programs x lag/lead option lattice against a reference classifier written from the statement'
 RULE = ('mentions = 3 names x {variable, {parameter}, <error>} x offsets {none, -2, +2, label}; LHS = 3 names x {none, +1}; programs: 1 equation x 1..2 RHS mentions, '
         '2 equations x 1 RHS mention (quick) plus 3 equations x 1 RHS mention over a reduced mention set and 2 equations x 2 RHS mentions over a reduced set (thorough); '
-        'plus 39 name spellings one case-change/affix away from a keyword or helper; option lattice lags, leads in {None,0,1,3} x min_lags, min_leads in {0,1,3}. non-trivial = accepted program (classification compared) or rejection compared')
+        'plus 39 name spellings one case-change/affix away from a keyword or helper; option lattice lags, leads in {None,0,1,3} x min_lags, min_leads in {0,1,3}. non-trivial = accepted program (classification compared) or rejection compared'
+        ' Name shapes include soft keywords and underscore-initial names; call spellings with a blank before the bracket; 13 raw scripts with double definitions the generator cannot spell (exp/np.exp, several targets).')
 ASSUMPTIONS = [
     'when a script contains both a kind clash and a double definition either error class is accepted',
     'explicit lags=/leads= replace the derived value outright (min_lags=/min_leads= only raise a derived value), as the docstring says ("impose")',
@@ -271,8 +272,41 @@ def blocks(tier, seed):
     return [{'b': b, 'nb': nb} for b in range(nb)]
 
 
+# two *different* equations for one variable, in spellings the program generator does not produce: a replaced function and its
+# namespaced twin, a statement with several targets followed by another definition of one of them (first or second)
+RAW_DOUBLE_DEFINITIONS = [
+    'Y = exp(X)\nY = np.exp(X)', 'Y = log(X) + Z\nY = np.log(X) + Z', 'Y = max(X, Z)\nY = np.maximum(X, Z)', 'Y = X + 1\nY = X + 1.0',
+    '(A, B) = (X, Z)\nB = W[-1]', '(A, B) = (X, Z)\nA = W[-1]', 'A,B = X, Z\nB = W', 'B = W[-1]\n(A, B) = (X, Z)',
+    'Y = X[-1]\nZ = Y\nY = X[-2]', 'Y = {a} * X\nY = {a}  *  X + 0',
+]
+RAW_SAME_DEFINITIONS = ['Y = X + 1\nY = X  +  1', 'Y = exp( X )\nY = exp(X)  # again', '(A, B) = (X, Z)\n(A, B) = (X,  Z)']
+
+
+@robust()
+def run_raw_case(case):
+    script = case['script']
+    try:
+        fsic.parse_model(script)
+        got = 'accept'
+    except (ParserError, SymbolError) as e:
+        got = type(e).__name__
+    if case['expect'] == 'reject' and got == 'accept':
+        return [('rejection:double-definition:raw', 'ParserError', got, 'two different equations for one variable must be rejected: %r' % script)]
+    if case['expect'] == 'accept' and got != 'accept':
+        return [('spurious-rejection:same-equation-twice:%s' % got, 'accepted', got, 'the same equation written twice is not a double definition: %r' % script)]
+    return []
+
+
 def run_block(block, tier, seed):
     acc = Acc()
+    if block['b'] == 0:
+        for expect, scripts in (('reject', RAW_DOUBLE_DEFINITIONS), ('accept', RAW_SAME_DEFINITIONS)):
+            for script in scripts:
+                case = {'raw': True, 'script': script, 'expect': expect}
+                acc.evaluations += 1
+                acc.nontrivial += 1
+                for key, exp, obs, what in run_raw_case(case):
+                    acc.violation(key, case, exp, obs, what)
     for i, (prog, full) in enumerate(program_space(tier)):
         if i % block['nb'] != block['b']:
             continue
@@ -297,6 +331,8 @@ def run_block(block, tier, seed):
 
 
 def run_one(case):
+    if case.get('raw'):
+        return run_raw_case(case)
     return run_case(case)[0]
 
 
